@@ -195,7 +195,11 @@ impl LsmVerifier {
                 let setsum = Setsum::from_hexdigest(rmed)
                     .ok_or_else(|| corruption(format!("manifest rmed has bad digest: {rmed}")))?;
                 computed_discard += setsum;
-                ssts_to_remove.push(setsum);
+                // NOTE(rescrv):  Sometimes compaction generates the same file as input and output.
+                // Such a file stays live, so it is not ours to remove.
+                if !edit.added().any(|added| added == rmed) {
+                    ssts_to_remove.push(setsum);
+                }
             }
             if !first {
                 if let Some(log_num) = edit.get_info('L') {
